@@ -20,7 +20,7 @@ Symbolic (tier N position checker + induction over stores and mask sweeps):
                         defaults to Q, mode defaults to the classifier's choice.
 -/
 import FastQr.Finite.TablesFormat
-import FastQr.Finite.Template
+import FastQr.Finite.VersionCells
 import FastQr.Proofs.Lift
 import FastQr.Model.Build
 import FastQr.Proofs.BuildSound
